@@ -86,6 +86,8 @@ func main() {
 	uniq := 0
 	tickers := 0
 	autoSends := 0
+	autoGo := 0
+	goCallees := findGoCallees(absRepo, pkgs)
 	for _, pkg := range pkgs {
 		dir := filepath.Join(absRepo, pkg)
 		ents, err := os.ReadDir(dir)
@@ -297,6 +299,32 @@ func main() {
 				})
 				_ = visitList
 			}
+			// goroutine start is a scheduling point: a yield opens the body of every
+			// function literal started with `go`, and of every function or method of
+			// this package whose name is the callee of a `go` statement (a yield more at
+			// the entry of a function that is also called directly is harmless). Without
+			// it a new goroutine runs up to its first lock before the scheduler sees it.
+			for _, d := range f.Decls {
+				fd, ok := d.(*ast.FuncDecl)
+				if !ok || fd.Body == nil {
+					continue
+				}
+				ast.Inspect(fd.Body, func(n ast.Node) bool {
+					gs, ok := n.(*ast.GoStmt)
+					if !ok {
+						return true
+					}
+					if lit, ok := gs.Call.Fun.(*ast.FuncLit); ok {
+						edits = append(edits, edit{off(lit.Body.Lbrace) + 1, off(lit.Body.Lbrace) + 1, fmt.Sprintf(" simhook.Yield(%q); ", "go:"+pkg+"."+fd.Name.Name)})
+						autoGo++
+					}
+					return true
+				})
+				if goCallees[pkg][fd.Name.Name] && len(fd.Body.List) > 0 {
+					edits = append(edits, edit{off(fd.Body.Lbrace) + 1, off(fd.Body.Lbrace) + 1, fmt.Sprintf(" simhook.Yield(%q); ", "go:"+pkg+"."+fd.Name.Name)})
+					autoGo++
+				}
+			}
 			// every other range over a map: sorted keys, rotation chosen by the scheduler
 			ast.Inspect(f, func(n ast.Node) bool {
 				r, ok := n.(*ast.RangeStmt)
@@ -409,5 +437,52 @@ func main() {
 	if err := os.WriteFile(filepath.Join(absOut, "overlay.json"), js, 0o644); err != nil {
 		die("%v", err)
 	}
-	fmt.Printf("overlaygen: %d files rewritten, %d lock fields swapped, %d yields before channel sends\n", len(replace), swapped, autoSends)
+	fmt.Printf("overlaygen: %d files rewritten, %d lock fields swapped, %d yields before channel sends, %d at goroutine starts\n", len(replace), swapped, autoSends, autoGo)
+}
+
+// findGoCallees returns, per package, the names of functions and methods that
+// are the callee of a go statement (go f(x), go r.m(x)).
+func findGoCallees(repo string, pkgs []string) map[string]map[string]bool {
+	out := map[string]map[string]bool{}
+	for _, pkg := range pkgs {
+		out[pkg] = map[string]bool{}
+		dir := filepath.Join(repo, pkg)
+		ents, err := os.ReadDir(dir)
+		if err != nil {
+			die("%v", err)
+		}
+		for _, e := range ents {
+			name := e.Name()
+			if e.IsDir() || !strings.HasSuffix(name, ".go") || strings.HasSuffix(name, "_test.go") {
+				continue
+			}
+			src, err := os.ReadFile(filepath.Join(dir, name))
+			if err != nil {
+				die("%v", err)
+			}
+			if bytes.Contains(src, []byte("//go:build !verif")) || bytes.Contains(src, []byte("//go:build ignore")) {
+				continue
+			}
+			f, err := parser.ParseFile(token.NewFileSet(), name, src, 0)
+			if err != nil {
+				die("parse %s: %v", name, err)
+			}
+			ast.Inspect(f, func(n ast.Node) bool {
+				gs, ok := n.(*ast.GoStmt)
+				if !ok {
+					return true
+				}
+				switch fn := gs.Call.Fun.(type) {
+				case *ast.Ident:
+					out[pkg][fn.Name] = true
+				case *ast.SelectorExpr:
+					// only methods and functions of this package can be instrumented; a
+					// selector on an imported package name simply finds no declaration here
+					out[pkg][fn.Sel.Name] = true
+				}
+				return true
+			})
+		}
+	}
+	return out
 }
